@@ -152,7 +152,7 @@ fn ecdsa_scope(d: &Desc, value: Amount) -> SigScope {
 }
 
 /// one (descriptor, world, mode, route) execution
-fn one_result(u: &Universe, d: &Desc, w: &World, mode: &str, route: &str, static_script: Option<&Value>) -> Value {
+pub fn one_result(u: &Universe, d: &Desc, w: &World, mode: &str, route: &str, static_script: Option<&Value>) -> Value {
     let tx = w.tx();
     let prevout = TxOut { value: Amount::from_sat(PREV_VALUE), script_pubkey: d.script_pubkey() };
     let sat = WorldSat {
@@ -164,6 +164,20 @@ fn one_result(u: &Universe, d: &Desc, w: &World, mode: &str, route: &str, static
         internal_key: Some(INTERNAL_KEY),
         cache: RefCell::new(BTreeMap::new()),
     };
+    // key-path signature of a taproot output (only when the world lets the internal key sign):
+    // the internal key pair tweaked with the merkle root of the descriptor's tree, over the
+    // key-spend sighash
+    if let (Descriptor::Tr(tr), true) = (d, w.ik) {
+        use bitcoin::key::TapTweak;
+        let sp = alpha::Spend::single(&tx, &prevout);
+        if let Some(msg) = alpha::schnorr_msg(&sp, &SigScope::TapKey, bitcoin::TapSighashType::Default) {
+            let tweaked = u.keypairs[INTERNAL_KEY].tap_tweak(&u.secp, tr.spend_info().merkle_root());
+            #[allow(deprecated)]
+            let sig = u.secp.sign_schnorr_no_aux_rand(&msg, &tweaked.to_inner());
+            let ts = bitcoin::taproot::Signature { signature: sig, sighash_type: bitcoin::TapSighashType::Default };
+            sat.cache.borrow_mut().insert((INTERNAL_KEY, b"keyspend".to_vec()), ts.to_vec());
+        }
+    }
     let mut plan_info = Value::Null;
     let r = catch_unwind(AssertUnwindSafe(|| -> Result<(Vec<Vec<u8>>, ScriptBuf), String> {
         match (route, mode) {
